@@ -400,9 +400,7 @@ func g1Diff(a, b *chiapos.G1Element) bool {
 	return !bytes.Equal(a.Bytes(), b.Bytes())
 }
 
-func qualityDiff(i int, a, b *protocol.Quality) string {
-	f := func(s string) string { return fmt.Sprintf("Qualities[%d].%s", i, s) }
-	_ = f
+func qualityDiff(a, b *protocol.Quality) string {
 	if a == nil || b == nil || a.WorkSpaceQuality == nil || b.WorkSpaceQuality == nil {
 		return "Qualities[].nil"
 	}
@@ -467,7 +465,7 @@ func diffMsg(a, b protocol.Message) string {
 			return "Qualities.len"
 		}
 		for i := range x.Qualities {
-			if d := qualityDiff(i, x.Qualities[i], y.Qualities[i]); d != "" {
+			if d := qualityDiff(x.Qualities[i], y.Qualities[i]); d != "" {
 				return d
 			}
 		}
@@ -605,7 +603,7 @@ func malformed(m protocol.Message) string {
 	return ""
 }
 
-// hasInvalidUTF8 reports whether any string field of the message is not valid UTF-8.
+// validStrings reports whether all the strings are valid UTF-8.
 func validStrings(ss ...string) bool {
 	for _, s := range ss {
 		if !utf8.ValidString(s) {
